@@ -1,8 +1,10 @@
 ------------------------------ MODULE MC_Heap ------------------------------
-(* Model-checking wrapper for Heap: all histories of copy / in-place mutation / assignment / style access / *)
-(* tree edits over the base tree  C1[S1, C2[X1]]  (a collection with a child source and a nested collection *)
-(* holding a sensor; S1, C2, X1 have a parent, C1 has none) with a pool of spare object ids for the copies  *)
-(* (copies of copies included).                                                                            *)
+(* Model-checking wrapper for Heap: all histories of copy / in-place mutation (incl. of the lazily created  *)
+(* style) / assignment / tree edits over the base tree  C1[S1, C2[X1]]  (a collection with a child source   *)
+(* and a nested collection holding a sensor; S1, C2, X1 have a parent, C1 has none) with a pool of spare    *)
+(* object ids for the copies (copies of copies included).  Configurations: MC_Heap_quick.cfg (depth bound), *)
+(* MC_Heap_thorough.cfg (fixpoint, 2 spare ids); the check derives further ones by replacing constants,     *)
+(* among them the counter-designs (ShallowSlots, KeepParent) that TLC must refute.                          *)
 EXTENDS Heap
 CONSTANTS NSpare,         \* number of object ids available for copies
           Vals,           \* abstract cell contents
@@ -94,13 +96,11 @@ Next == \E o \in HObjs(st) :
 Spec == Init /\ [][Next]_vars
 \* the content of value cells influences neither the enabling nor the shape of any step: the structural view
 StructView == <<[st EXCEPT !.val = [c \in DOMAIN @ |-> 0]], ne, pairs>>
-FullView == <<st, ne, pairs>>
 LevelBound == MaxLevel = 0 \/ TLCGet("level") <= MaxLevel
 
 (***************************************************************************)
 (* Properties                                                              *)
 (***************************************************************************)
-Ob == ObsOf(st)
 \* no two live objects share a cell, ever (implies NoSharing for every pair of disjoint subtrees)
 NoAliasInv == LET all == UNION {{<<a, s>> : s \in DOMAIN st.refs[a]} : a \in HObjs(st)}
               IN Cardinality({st.refs[p[1]][p[2]] : p \in all}) = Cardinality(all)
